@@ -154,7 +154,8 @@ def gen(rng, tier, cfg):
 
 def run(chk, replay=None):
     gens = gen_sources()
-    proof = proof_check(PID, gen_theorems=("C06Formulas",))
+    proof = proof_check(PID, gen_theorems=("C06Formulas", "OpsTable"))
+    proof = add_ops_table(proof, gen_sources())
     if gens.get("formulas_error"):
         proof["ok"] = False; proof["problems"].append("translator tools/gen_formulas.py cannot read the current source: " + gens["formulas_error"])
     drv = build_driver()
